@@ -111,7 +111,8 @@ def judge_chunks(ctx, chunks, what, nproc):
             s = pr.replace('\\"', '"')
             if "SEEN {" in s:
                 done = True
-                seen |= set(re.findall(r'"(<<[^{}]*?>>|[a-zA-Z.]+)"', s[s.index("SEEN {"):]))
+                s2 = s[s.index("SEEN {"):].replace("\\", "")
+                seen |= set(re.findall(r'<<"\w+"[^<>]*>>', s2)) | set(re.findall(r'"([a-zA-Z][a-zA-Z.]*)"', s2))
             m = RE_REJ.search(pr)
             if m:
                 ln = int(m.group(1))
@@ -240,8 +241,9 @@ def run(ctx):
         "silk_PLC_update: for 0 < LTP_Gain_Q14 < 359 (reachable: codebook-0 row {0,0,2,0,0} in every searched sub-frame gives 256) scale_Q10 = (11469<<10)/gain "
         "exceeds 16 bits and silk_SMULBB reads only its low 16 bits as a signed value: the centre tap becomes -4915 (Q14) instead of 11469, randScale_Q14 starts "
         "above 1.0 (up to 20234) and the negative tap decays to -1, never 0. Witness: SilkPlc_mc_witness.cfg (refuted as expected). No listed property is affected.")
-    ctx.exhaustive = "the machine over the grids of SilkPlc_mc (cfgs: %s); loss patterns: all %s words of SilkPlcGen" % (
-        ", ".join(c for c, _, _ in T["mc"]), "sampled" if T["npat"] else "")
+    ctx.exhaustive = T["npat"] is None
+    ctx.notes["exhaustive_scope"] = "the machine over the grids of SilkPlc_mc (cfgs: %s); loss patterns: %s words of SilkPlcGen" % (
+        ", ".join(c for c, _, _ in T["mc"]), "a seeded sample of the" if T["npat"] else "all")
 
     # 2. loss patterns from the model's alphabet
     g = vf.tlc("SilkPlcGen", T["gen"], workers=2, heap="2g")
